@@ -39,7 +39,11 @@ pub fn generate(seed: u64, idx: u64) -> Scenario {
     }
     let n = rng.range(1, 40);
     let mut steps = 0;
-    if rng.chance(60) {
+    if rng.chance(300) {
+        if let Some(k) = neighbour(&mut rng, &mut s, &uris[0]) {
+            steps = n.saturating_sub(k.min(3)); // a few ordinary steps may follow
+        }
+    } else if rng.chance(60) {
         // a program written from nothing, keystroke by keystroke, then partly erased again
         let uri = uris[0].clone();
         s.close(&uri);
@@ -72,7 +76,21 @@ pub fn generate(seed: u64, idx: u64) -> Scenario {
     while steps < n {
         let uri = rng.pick(&uris).clone();
         let text = s.text(&uri).cloned().unwrap_or_default();
-        match (family, rng.below(10)) {
+        match (family, rng.below(13)) {
+            (_, roll @ (10 | 11 | 12)) => {
+                // trivia + change of a looked-ahead token + undo, one notification each; or the
+                // same at the place where error recovery stops
+                let mut cur = text.clone();
+                let seq = if roll == 12 { gen::recovery_probe(&mut rng, &text) } else { gen::lookahead_probe(&mut rng, &text) };
+                for (r, repl) in seq {
+                    let a = gen::snap(&cur, r.start.min(cur.len()));
+                    let b = gen::snap(&cur, r.end.min(cur.len())).max(a);
+                    let e = gen::to_lsp_edit(&cur, a..b, repl);
+                    gen::apply(&mut cur, &e);
+                    s.change(&uri, vec![e]);
+                    steps += 1;
+                }
+            }
             (_, 9) => {
                 // edits in the look-ahead region behind a statement boundary
                 let mut cur = text.clone();
@@ -178,6 +196,74 @@ pub fn generate(seed: u64, idx: u64) -> Scenario {
         faults: vec![],
         close_at_end: true,
     }
+}
+
+/// A session in the neighbourhood of a committed regression scenario: the same edits on a text
+/// with other trivia in the token gaps (comments, line breaks), optionally behind other
+/// declarations so that absolute and reference-relative token positions differ, optionally
+/// followed by the inverse edit. Returns the number of steps added.
+fn neighbour(rng: &mut Rng, s: &mut Session, uri: &str) -> Option<usize> {
+    let corpus = super::corpus(ID);
+    if corpus.is_empty() {
+        return None;
+    }
+    let base = rng.pick(corpus);
+    let mut o = base.script.iter().find_map(|st| match &st.op {
+        ClientOp::Open { text, .. } => Some(text.clone()),
+        _ => None,
+    })?;
+    let prefix = if rng.chance(400) {
+        let mut p = gen::valid_program(rng, 1);
+        if !p.ends_with('\n') {
+            p.push('\n');
+        }
+        // without a second `main`
+        p.replace("proc main(", "proc other(")
+    } else {
+        String::new()
+    };
+    let mut q = if rng.chance(800) { gen::perturb_trivia(rng, &o) } else { o.clone() };
+    s.close(uri);
+    s.open(uri, &format!("{prefix}{q}"));
+    let mut steps = 0;
+    for st in &base.script {
+        let ClientOp::Change { edits, .. } = &st.op else { continue };
+        let mut mapped = vec![];
+        let mut undo: Vec<(usize, usize, String)> = vec![];
+        for e in edits {
+            // the edit as byte range of the original text, re-targeted to the perturbed one
+            let (a, b) = match e.range {
+                Some([sl, sc, el, ec]) => (crate::h::client::offset_at(&o, sl, sc), crate::h::client::offset_at(&o, el, ec)),
+                None => (0, o.len()),
+            };
+            let (a, b) = (a.min(o.len()), b.min(o.len()).max(a.min(o.len())));
+            let (qa, qb) = (gen::map_offset(&o, &q, a), gen::map_offset(&o, &q, b));
+            let (qa, qb) = (qa.min(qb), qb.max(qa));
+            let full = format!("{prefix}{q}");
+            let le = gen::to_lsp_edit(&full, prefix.len() + qa..prefix.len() + qb, e.text.clone());
+            undo.push((qa, qa + e.text.len(), q[qa..qb].to_string()));
+            o.replace_range(a..b, &e.text);
+            q.replace_range(qa..qb, &e.text);
+            mapped.push(le);
+        }
+        s.change(uri, mapped);
+        steps += 1;
+        if rng.chance(300) {
+            // and back again, one notification per edit in reverse order
+            for (a, b, old) in undo.into_iter().rev() {
+                let full = format!("{prefix}{q}");
+                if !full.is_char_boundary(prefix.len() + a) || !full.is_char_boundary(prefix.len() + b) {
+                    break;
+                }
+                let le = gen::to_lsp_edit(&full, prefix.len() + a..prefix.len() + b, old.clone());
+                q.replace_range(a..b, &old);
+                s.change(uri, vec![le]);
+                steps += 1;
+            }
+            break; // `o` is no longer in step
+        }
+    }
+    Some(steps)
 }
 
 /// syntactically valid = a fresh analysis reports no lexical and no parse error
@@ -405,9 +491,9 @@ pub fn judge(sc: &Scenario) -> Judgement {
         }
         if let Some((clause, sig, detail)) = compare(&o.doc, &fresh) {
             if clause == "tokens" {
+                // the token stream is named in C01's statement too; C07 judges the same layer with
+                // the window clauses on top
                 j.notes.push("other-property=C07 token stream differs from a fresh tokenisation".into());
-                reported = true;
-                continue;
             }
             j.violate(
                 ID,
